@@ -425,6 +425,12 @@ def confinement_names(outside_abs):
         ("a/../../sentinel/s.txt", True), ("../../x", True),
         ("a/./b", False), ("a//b", False), ("..x", False), ("x..", False),
         ("a:b", False), ("a/..b/c", False), ("a/../b", None),
+        # outside names whose parent directories do not exist yet: refusing
+        # them must not create those directories either
+        ("../newdir/x", True), ("mesh/../../other/1:0", True),
+        ("../../elsewhere/a/b", True),
+        (os.path.join(os.path.dirname(os.path.dirname(outside_abs)),
+                      "newabs", "deep", "f"), True),
     ]
 
 
@@ -458,6 +464,8 @@ def _eval_confinement(col, cfg):
         for name, outside in confinement_names(outside_abs):
             for opname in ("store", "store-overwrite", "fetch", "exists"):
                 case = {"kind": "confinement", "config": cfg, "name":
+                        "<abs path of ds/newabs/deep/f>"
+                        if name.endswith("/newabs/deep/f") else
                         name if name != outside_abs else "<abs path of "
                         "sentinel/s.txt>", "op": opname,
                         "resolves_outside": outside}
